@@ -1,18 +1,25 @@
 import N2k.Model.Handlers
 import N2k.Model.Rx
 /-!
-# Node-level receive step for C14: the receive path of C02 (`N2k.Rx.rx`, imported unchanged) composed with the handler list
+# Node-level receive path for C14: CAN driver queue → `ParseMessages` → receive model of C02 → handler list
 
-`ParseMessages` per received frame: `MsgIndex=SetN2kCANBufMsg(...)`; if a message is complete
-`HandleReceivedSystemMessage / ForwardMessage`, `RunMessageHandlers(N2kCANMsgBuf[MsgIndex].N2kMsg)`, `FreeMessage()`.
-`N2k.Rx.rx` is exactly "`SetN2kCANBufMsg` + deliver + `FreeMessage`" and returns the completed message, if any; here that
-message is handed to `dispatch` of `Model/Handlers.lean`.  Whether the library also consumed the message itself
+`ParseMessages` reads at most `MaxReadFramesOnParse = 20` frames from the driver per call
+(`while (FramesRead<MaxReadFramesOnParse && CANGetFrame(...))`: a frame is taken out of the driver only when it is going
+to be handled) and for each: `MsgIndex=SetN2kCANBufMsg(...)`; if a message is complete `HandleReceivedSystemMessage /
+ForwardMessage`, `RunMessageHandlers(N2kCANMsgBuf[MsgIndex].N2kMsg)`, `FreeMessage()`.
+`N2k.Rx.rx` (C02, imported unchanged) is "`SetN2kCANBufMsg` + deliver + `FreeMessage`" and returns the completed message,
+if any; here it is handed to `dispatch` of `Model/Handlers.lean`.  Whether the library also consumed the message itself
 (`HandleReceivedSystemMessage`) has no influence on the call of `RunMessageHandlers`.
 
-The receive model `N2k.Rx` covers single frames, fast packets and the slot a TP.CM RTS/BAM takes; the payload reassembly of
-TP.DT packets is the receiver of C10 (`N2k.TP`, a different state space).  Its result is an INPUT here: event `tpDone`
-("the transport-protocol receiver has just completed message `m` on that bus"), which frees the session's slot like
-`FreeMessage()` does and dispatches `m`.
+`ForwardMode` is a bit set written by `SetForwardSystemMessages` (bit 1), `SetForwardOnlyKnownMessages` (2),
+`SetForwardOwnMessages` (3), `SetHandleOnlyKnownMessages` (4) (`mode`, one Bool per bit; `|= bit` / `&= ~bit` of a
+one-bit mask = update of that bit); `HandleOnlyKnownMessages()` reads bit 4.
+
+The receive model `N2k.Rx` covers single frames, fast packets and the slot a TP.CM RTS/BAM takes (incl. the length and
+known-message gates).  The payload reassembly from TP.DT packets is the receiver of C10 (`N2k.TP`, a different state
+space, not composed).  Its verdict is an INPUT: a queued TP.DT frame may carry the annotation `some m` = "this is the last
+in-sequence packet of a transfer carrying message `m`".  The model then delivers `m` iff the session's slot is (still) open
+in the receive model, and frees it (`FreeMessage()`).
 -/
 namespace N2k.Handlers
 
@@ -24,49 +31,90 @@ structure Call where
   hs : List Id              -- handler objects whose `HandleMsg` ran, in call order
 deriving DecidableEq, Repr
 
-/-- handler objects of all bus objects + the receive slots of every bus object -/
+/-- a frame in the driver with the TP-receiver input (only read for TP.DT frames) -/
+abbrev QFrame := Rx.Frame × Option Rx.Msg
+
+/-- receive side of all bus objects -/
+structure RxSide where
+  mode : BusId → Nat → Bool          -- bits of `ForwardMode`
+  st : BusId → Rx.St                 -- receive slots
+  drv : BusId → List QFrame          -- frames waiting in the CAN driver, oldest first
+
 structure Node where
   w : World
-  rx : BusId → Rx.St
+  r : RxSide
 
 inductive Ev where
-  | op (o : Op)                                       -- client operation on handlers
-  | frame (bus : BusId) (now : Nat) (f : Rx.Frame)    -- a CAN frame read by `ParseMessages` of that bus at time `now`
-  | tpDone (bus : BusId) (m : Rx.Msg)                 -- INPUT: last TP.DT packet of a transfer carrying `m` was accepted
+  | op (o : Op)                                           -- client operation on handlers
+  | setMode (bus : BusId) (bit : Nat) (v : Bool)          -- one of the `Set...Messages(v)` calls
+  | arrive (bus : BusId) (f : Rx.Frame) (tp : Option Rx.Msg)   -- the CAN controller received a frame
+  | poll (bus : BusId) (now : Nat)                        -- `ParseMessages()` of that bus at time `now`
 
-def setRx (rx : BusId → Rx.St) (b : BusId) (st : Rx.St) : BusId → Rx.St := fun x => if x = b then st else rx x
+def maxRead : Nat := 20
 
-/-- the slot of the TP session that carried `m` is freed after delivery (`FreeMessage()`) -/
-def tpFree (st : Rx.St) (m : Rx.Msg) : Rx.St :=
-  if Rx.findFirst st (Rx.tpMatchP m.pgn m.src m.dst) st.N 0 < st.N then
-    Rx.setSlot st (Rx.findFirst st (Rx.tpMatchP m.pgn m.src m.dst) st.N 0)
-      (Rx.freeSlot (st.slot (Rx.findFirst st (Rx.tpMatchP m.pgn m.src m.dst) st.N 0)))
-  else st
+def upd {α : Type} (g : BusId → α) (b : BusId) (a : α) : BusId → α := fun x => if x = b then a else g x
 
-/-- receive side only (no handlers): new slot states and the message completed by this event, if any -/
-def rxTrack (c : BusId → Rx.Cfg) (rx : BusId → Rx.St) : Ev → (BusId → Rx.St) × Option (BusId × Rx.Msg)
-  | .op _ => (rx, none)
-  | .frame b now f =>
-    (setRx rx b (Rx.rx (c b) (rx b) now f).1, ((Rx.rx (c b) (rx b) now f).2).map fun m => (b, m))
-  | .tpDone b m => (setRx rx b (tpFree (rx b) m), some (b, m))
+/-- `HandleOnlyKnownMessages()` = bit 4 of `ForwardMode`; the PGN lists come from the parameter `c` -/
+def effCfg (c : BusId → Rx.Cfg) (mode : BusId → Nat → Bool) (b : BusId) : Rx.Cfg :=
+  { c b with knownOnly := mode b 4 }
 
-/-- one event: client operation, or receive step followed by `RunMessageHandlers` for the completed message -/
-def nodeStep (c : BusId → Rx.Cfg) (n : Node) (e : Ev) : Option (Node × Option Call) :=
+/-- open TP session that carries `m` -/
+def tpSession (st : Rx.St) (m : Rx.Msg) : Option Nat :=
+  if Rx.findFirst st (Rx.tpMatchP m.pgn m.src m.dst) st.N 0 < st.N
+      ∧ (st.slot (Rx.findFirst st (Rx.tpMatchP m.pgn m.src m.dst) st.N 0)).free = false
+  then some (Rx.findFirst st (Rx.tpMatchP m.pgn m.src m.dst) st.N 0) else none
+
+/-- one frame read by `ParseMessages`: new slots and the message it completes -/
+def rxFrame (cfg : Rx.Cfg) (st : Rx.St) (now : Nat) (q : QFrame) : Rx.St × Option Rx.Msg :=
+  match (if q.1.pgn = 60160 then q.2 else none) with
+  | some m =>
+    match tpSession st m with
+    | some i => (Rx.setSlot st i (Rx.freeSlot (st.slot i)), some m)
+    | none => (st, none)
+  | none => Rx.rx cfg st now q.1
+
+/-- the frames of one `ParseMessages` call, in order -/
+def rxBatch (cfg : Rx.Cfg) (now : Nat) : Rx.St → List QFrame → Rx.St × List Rx.Msg
+  | st, [] => (st, [])
+  | st, q :: qs =>
+    ((rxBatch cfg now (rxFrame cfg st now q).1 qs).1,
+     (rxFrame cfg st now q).2.toList ++ (rxBatch cfg now (rxFrame cfg st now q).1 qs).2)
+
+/-- receive side only (no handlers): new state and the messages completed by this event, in order -/
+def rxTrack (c : BusId → Rx.Cfg) (r : RxSide) : Ev → RxSide × List (BusId × Rx.Msg)
+  | .op _ => (r, [])
+  | .setMode b bit v => ({ r with mode := upd r.mode b (fun k => if k = bit then v else r.mode b k) }, [])
+  | .arrive b f tp => ({ r with drv := upd r.drv b (r.drv b ++ [(f, tp)]) }, [])
+  | .poll b now =>
+    ({ r with st := upd r.st b (rxBatch (effCfg c r.mode b) now (r.st b) ((r.drv b).take maxRead)).1,
+              drv := upd r.drv b ((r.drv b).drop maxRead) },
+     (rxBatch (effCfg c r.mode b) now (r.st b) ((r.drv b).take maxRead)).2.map fun m => (b, m))
+
+/-- `RunMessageHandlers` for each completed message, in order (the handlers do not change in between) -/
+def dispatchAll (w : World) : List (BusId × Rx.Msg) → Option (List Call)
+  | [] => some []
+  | bm :: rest =>
+    match dispatch w bm.1 bm.2.pgn with
+    | none => none
+    | some r =>
+      match dispatchAll w rest with
+      | none => none
+      | some cs => some (⟨bm.1, bm.2, r.1, r.2⟩ :: cs)
+
+/-- one event: client operation, or receive step followed by `RunMessageHandlers` for every completed message -/
+def nodeStep (c : BusId → Rx.Cfg) (n : Node) (e : Ev) : Option (Node × List Call) :=
   match e with
   | .op o =>
     match step n.w o with
     | none => none
-    | some w' => some (⟨w', n.rx⟩, none)
+    | some w' => some (⟨w', n.r⟩, [])
   | e =>
-    match (rxTrack c n.rx e).2 with
-    | none => some (⟨n.w, (rxTrack c n.rx e).1⟩, none)
-    | some bm =>
-      match dispatch n.w bm.1 bm.2.pgn with
-      | none => none
-      | some r => some (⟨n.w, (rxTrack c n.rx e).1⟩, some ⟨bm.1, bm.2, r.1, r.2⟩)
+    match dispatchAll n.w (rxTrack c n.r e).2 with
+    | none => none
+    | some cs => some (⟨n.w, (rxTrack c n.r e).1⟩, cs)
 
-/-- a whole history; for every event the call of `RunMessageHandlers` it caused, if any (aligned with the history) -/
-def nodeRun (c : BusId → Rx.Cfg) : Node → List Ev → Option (Node × List (Option Call))
+/-- a whole history; for every event the calls of `RunMessageHandlers` it caused (aligned with the history) -/
+def nodeRun (c : BusId → Rx.Cfg) : Node → List Ev → Option (Node × List (List Call))
   | n, [] => some (n, [])
   | n, e :: evs =>
     match nodeStep c n e with
